@@ -128,6 +128,14 @@ func main() {
 			wm.ResetTransparent()
 			c2, err2 := def.RunOn(p, *tier == "thorough")
 			wm.TransparentOn = false
+			if os.Getenv("WM_SHOW_SECOND") != "" && err2 == nil {
+				fmt.Printf("second attempt (looked through: %s): %d failing\n", strings.Join(wm.UsedTransparent(), ", "), c2.Failing(known))
+				for _, ob := range c2.Obs {
+					if ob.Verdict == wm.Violation || ob.Verdict == wm.Undecided {
+						fmt.Printf("  2nd %s %s %s %s {%s}\n", ob.ID, ob.Rule, ob.Pos, ob.Func, ob.Construct)
+					}
+				}
+			}
 			if used := wm.UsedTransparent(); err2 == nil && len(used) > 0 && c2.Failing(known) == 0 {
 				c = c2
 				out.Extra["inlined_helpers["+cfg.Label+"]"] = used
